@@ -40,8 +40,16 @@ func smtText(o *Oblig, lits []*Term, wantModel bool) string {
 	for _, a := range o.Axioms {
 		b.WriteString("(assert " + a.String() + ")\n")
 	}
+	// quantified hypotheses first, ground facts after them: measured to be the ordering the solvers cope with best
 	for _, h := range o.Hyps {
-		b.WriteString("(assert " + h.String() + ")\n")
+		if hasQuant(h) {
+			b.WriteString("(assert " + h.String() + ")\n")
+		}
+	}
+	for _, h := range o.Hyps {
+		if !hasQuant(h) {
+			b.WriteString("(assert " + h.String() + ")\n")
+		}
 	}
 	b.WriteString("(assert (not " + o.Goal.String() + "))\n(check-sat)\n")
 	if wantModel {
@@ -136,7 +144,7 @@ func runSolver(b backend, file string, tsec int) (first string, out string, secs
 	out = buf.String()
 	for _, line := range strings.Split(out, "\n") {
 		line = strings.TrimSpace(line)
-		if line == "" {
+		if line == "" || strings.HasPrefix(line, "WARNING") || strings.HasPrefix(line, "(warning") {
 			continue
 		}
 		first = line
@@ -171,6 +179,41 @@ func discharge(o *Oblig, lits []*Term, workDir string, idx int, tsec int, allAgr
 		return v
 	}
 	nUnsat := 0
+	if !qf && !allAgree {
+		// attempt 1: the full obligation with a short budget (most discharge at once)
+		first, out, secs := runSolver(backends[0], file, 2)
+		v.Seconds += secs
+		if first == "unsat" {
+			v.Status, v.Backend = "discharged", backends[0].name
+			os.Remove(file)
+			return v
+		}
+		if first == "sat" {
+			v.Status, v.Backend, v.Output = "failed", backends[0].name, truncate(out, 20000)
+			return v
+		}
+		// attempt 2: the quantifier-free version built by ground instantiation (see instantiate.go)
+		if g := groundVersion(o, lits); g != nil {
+			var qfLits []*Term
+			for _, l := range lits {
+				if !hasQuant(l) {
+					qfLits = append(qfLits, l)
+				}
+			}
+			f2 := file + ".ground.smt2"
+			os.WriteFile(f2, []byte(smtText(g, qfLits, false)), 0o644)
+			first, _, secs := runSolver(backends[0], f2, 6)
+			v.Seconds += secs
+			v.Tried = append(v.Tried, "z3-new(ground):"+first)
+			os.Remove(f2)
+			if first == "unsat" {
+				v.Status = "discharged"
+				v.Backend = "z3-new (ground instances)"
+				os.Remove(file)
+				return v
+			}
+		}
+	}
 	for _, b := range backends[:3] {
 		first, out, secs := runSolver(b, file, tsec)
 		v.Seconds += secs
@@ -196,6 +239,53 @@ func discharge(o *Oblig, lits []*Term, workDir string, idx int, tsec int, allAgr
 			return v
 		default:
 			v.Output = truncate(out, 2000)
+		}
+	}
+	if nUnsat == 0 && !qf {
+		// Quantifier instantiation can be derailed by hypotheses the goal does not need. Dropping hypotheses only weakens what is
+		// assumed, so a proof from a subset is a proof: retry with each quantified hypothesis left out in turn (in parallel).
+		var qidx []int
+		for i, h := range o.Hyps {
+			if hasQuant(h) {
+				qidx = append(qidx, i)
+			}
+		}
+		if len(qidx) > 0 && len(qidx) <= 24 {
+			type res struct {
+				ok   bool
+				secs float64
+			}
+			ch := make(chan res, len(qidx))
+			for _, drop := range qidx {
+				go func(drop int) {
+					o2 := *o
+					o2.Hyps = nil
+					for i, h := range o.Hyps {
+						if i != drop {
+							o2.Hyps = append(o2.Hyps, h)
+						}
+					}
+					f2 := fmt.Sprintf("%s.drop%d.smt2", file, drop)
+					os.WriteFile(f2, []byte(smtText(&o2, lits, false)), 0o644)
+					first, _, secs := runSolver(backends[0], f2, 6)
+					os.Remove(f2)
+					ch <- res{first == "unsat", secs}
+				}(drop)
+			}
+			proved := false
+			for range qidx {
+				r := <-ch
+				v.Seconds += r.secs
+				if r.ok {
+					proved = true
+				}
+			}
+			if proved {
+				v.Status = "discharged"
+				v.Backend = "z3-new (subset of hypotheses)"
+				os.Remove(file)
+				return v
+			}
 		}
 	}
 	if nUnsat == 0 && !qf {
